@@ -134,6 +134,9 @@ func checkC12(p *Prog, r *Report) {
 				})
 				checkIdExcludesDelimiter(p, r, kp, ek+"#Id", site, msg, id, delim[0], vbDominates(e))
 			case "raw:Delete":
+				if rawKeyID(e.Key) == nil || otherFamilyKey(p, e.Key) {
+					continue // not the class record: a delete in a family of the module's own
+				}
 				// D2: no tokens left
 				ok, wit := false, ""
 				for _, a := range e.Cond.Atoms() {
@@ -689,8 +692,8 @@ func checkPnftClassDeleteGuard(p *Prog, r *Report, kp func(string, string) strin
 		hn := FuncName(fn)
 		w := pnftEffectsFrom(p, fn)
 		for _, e := range w.effects {
-			if e.Kind != "raw:Delete" {
-				continue
+			if e.Kind != "raw:Delete" || rawKeyID(e.Key) == nil || otherFamilyKey(p, e.Key) {
+				continue // not a delete of a class record (a family of the module's own: see checkPnftHandlersWriteExportedStateOnly)
 			}
 			n++
 			ok, wit := false, ""
@@ -717,23 +720,116 @@ func checkPnftClassDeleteGuard(p *Prog, r *Report, kp func(string, string) strin
 
 
 // checkPnftHandlersWriteExportedStateOnly (C08): PNFT handlers change state through the x/nft keeper's class, token and owner
-// records — the records the export walks and the import re-creates. A family of the module's own written with a raw Set is not in
-// the genesis file: whatever the import rebuilds from the exported denoms and tokens need not be what the handlers left there.
+// records — the records the export walks and the import re-creates. A family of the module's own (an index, a counter) is not in the
+// genesis file; the import rebuilds it from the exported denoms and tokens. That agrees with what the handlers left only if the
+// family is maintained on the way out as well: a family that the creating handler (CreateDenom / MintPNFT) writes must be deleted
+// from, or rewritten, by the removing handler (DeleteDenom / BurnPNFT) — otherwise entries of removed entities stay behind on the
+// running chain and are absent after an export/import.
 func checkPnftHandlersWriteExportedStateOnly(p *Prog, r *Report, kp func(string, string) string) {
-	n, nBad := 0, 0
+	famOf := func(e pnftEffect) string {
+		fam := ""
+		if e.Key != nil {
+			e.Key.Walk(func(x *Term) {
+				if fam == "" && x.Op == "call" && strings.Contains(x.Name, "x/pnft/") {
+					fam = x.Name
+				}
+			})
+			if fam == "" {
+				e.Key.Walk(func(x *Term) {
+					if fam == "" && (x.Op == "gval" || x.Op == "const") {
+						fam = x.Name
+					}
+				})
+			}
+		}
+		if fam == "" {
+			fam = FuncName(e.Fn)
+		}
+		return fam
+	}
+	written := map[string]map[string]pnftEffect{} // handler short name -> family -> a Set effect
+	touched := map[string]map[string]bool{}       // handler short name -> families with a Set or Delete
+	n := 0
 	for _, fn := range sortedFuncs(p.ServerHandlers("MsgServer")["x/pnft"]) {
-		hn := FuncName(fn)
+		hn := fn.Name()
 		for _, e := range pnftEffectsFrom(p, fn).effects {
 			n++
-			if e.Kind != "raw:Set" {
+			if e.Kind != "raw:Set" && e.Kind != "raw:Delete" {
+				continue
+			}
+			if e.Kind == "raw:Delete" && rawKeyID(e.Key) != nil && !otherFamilyKey(p, e.Key) {
+				continue // the class delete itself
+			}
+			f := famOf(e)
+			if touched[hn] == nil {
+				touched[hn], written[hn] = map[string]bool{}, map[string]pnftEffect{}
+			}
+			touched[hn][f] = true
+			if e.Kind == "raw:Set" {
+				written[hn][f] = e
+			}
+		}
+	}
+	nBad := 0
+	for _, pair := range [][2]string{{"CreateDenom", "DeleteDenom"}, {"MintPNFT", "BurnPNFT"}} {
+		for f, e := range written[pair[0]] {
+			if touched[pair[1]][f] {
 				continue
 			}
 			nBad++
-			r.Fail(kp("WMC", hn+"→"+e.Kind+"@"+FuncName(e.Fn)+"#exported"), "what PNFT handlers write is what the export walks (x/nft class, token and owner records)", p.Pos(e.Instr.Pos()),
-				fmt.Sprintf("%s writes the pnft store directly (%s, chain %s): this family is not part of the exported genesis, so a chain started from the export answers from whatever the import rebuilds — not from what the handlers left (stale or missing entries differ)", hn, FuncName(e.Fn), strings.Join(e.Chain, " -> ")))
+			r.Fail(kp("WMC", pair[0]+"→raw:Set:"+f+"#maintained-by:"+pair[1]), "a store family of the module's own that the creating handler writes is maintained by the removing handler too (the genesis file does not carry it: the import rebuilds it from the entities that still exist)", p.Pos(e.Instr.Pos()),
+				fmt.Sprintf("%s writes %s directly into the pnft store, %s never touches that family: the entry of a removed entity stays behind on the running chain, while a chain started from the export has none — the same query answers differently", pair[0], f, pair[1]))
 		}
 	}
 	if nBad == 0 {
-		r.OK(kp("WMC", "pnft-handlers#write-exported-state-only"), "what PNFT handlers write is what the export walks (x/nft class, token and owner records)", "x/pnft/keeper", fmt.Sprintf("%d effects on the handlers' call trees, no raw Set", n))
+		r.OK(kp("WMC", "pnft-handlers#own-families-maintained"), "a store family of the module's own that the creating handler writes is maintained by the removing handler too", "x/pnft/keeper", fmt.Sprintf("%d effects on the handlers' call trees; no family written on creation and untouched on removal", n))
 	}
+}
+
+
+// otherFamilyKey: the key is demonstrably not an x/nft class key — the prefix variables it is built from (directly, or inside the
+// module function that builds it) do not include x/nft's ClassKey.
+func otherFamilyKey(p *Prog, key *Term) bool {
+	var names []string
+	collect := func(t *Term) {
+		t.Walk(func(x *Term) {
+			if x.Op == "gval" || x.Op == "global" {
+				names = append(names, x.Name)
+			}
+		})
+	}
+	collect(key)
+	if len(names) == 0 && key.Op == "call" {
+		if g := staticCalleeOfTerm(p, key); g != nil && InModule(g) && g.Blocks != nil {
+			o := NewOrigin(p, g)
+			for _, ret := range returnsOf(g) {
+				for _, rv := range ret.Results {
+					collect(o.Of(rv))
+				}
+			}
+			// one level further: a builder on top of a prefix helper
+			if len(names) == 0 {
+				for _, cs := range callSites(g) {
+					if cs.Callee != nil && InModule(cs.Callee) && cs.Callee.Blocks != nil {
+						o2 := NewOrigin(p, cs.Callee)
+						for _, ret := range returnsOf(cs.Callee) {
+							for _, rv := range ret.Results {
+								collect(o2.Of(rv))
+							}
+						}
+					}
+				}
+			}
+		}
+	}
+	if len(names) == 0 {
+		return false
+	}
+	for _, n := range names {
+		// a prefix variable of x/nft (ClassKey, NFTKey, OwnerKey, …) or of any package outside the module: x/nft's own records
+		if strings.HasSuffix(n, "keeper.ClassKey") || strings.HasPrefix(n, "sdk/") || !InModuleName(n) {
+			return false
+		}
+	}
+	return true
 }
